@@ -378,6 +378,42 @@ def constructor_matrix():
                        "matrix": [list(inits), inv_level, root]}
 
 
+def invariant_order_matrix():
+    """Enumerated: the invariants of a hierarchy in every order of check_on (one or two invariants on the base, possibly
+    split over two bases), and a sub-class WITHOUT invariants of its own that defines NEW members (method, property,
+    special method): which members are checked must depend on the set of invariants, not on their order."""
+    import itertools
+
+    ons = ("CALL", "SETATTR", "ALL")
+    combos = list(itertools.product(ons, repeat=2)) + [(a,) for a in ons]
+    for combo in combos:
+        for layout in ("one-base", "two-bases"):
+            if layout == "two-bases" and len(combo) < 2:
+                continue
+            invs = [{"cid": i + 1, "on": on, "lam": False, "selfarg": True, "err": {"form": "default"}} for i, on in enumerate(combo)]
+            new_members = [_m("fresh", "method"), _m("q", "getter"), _m("__len__", "method")]
+            if layout == "one-base":
+                classes = [{"name": "K0", "bases": [], "root": "DBC", "shape": "plain", "invs": invs, "members": [_m("m", "method")]},
+                           {"name": "K1", "bases": [0], "root": "DBC", "shape": "plain", "invs": [], "members": new_members}]
+                last = 1
+            else:
+                classes = [{"name": "K0", "bases": [], "root": "DBC", "shape": "plain", "invs": invs[:1], "members": [_m("m", "method")]},
+                           {"name": "K1", "bases": [], "root": "DBC", "shape": "plain", "invs": invs[1:], "members": [_m("other", "method")]},
+                           {"name": "K2", "bases": [0, 1], "root": "DBC", "shape": "plain", "invs": [], "members": new_members}]
+                last = 2
+            cids = [i["cid"] for i in invs]
+            ops = [{"op": "new", "cls": last, "k": 0, "args": {}, "truth": {c: ["T"] for c in cids}}]
+            for opx in ({"op": "call", "k": 0, "m": "fresh", "args": {"x": "a:x"}}, {"op": "get", "k": 0, "m": "q"},
+                        {"op": "call", "k": 0, "m": "__len__", "args": {"x": "a:x"}}, {"op": "call", "k": 0, "m": "m", "args": {"x": "a:x"}},
+                        {"op": "setattr", "k": 0}):
+                ops.append(dict(opx, truth={c: ["T"] for c in cids}))
+                for bad in cids:
+                    ops.append(dict(opx, truth={c: (["T", "F"] if c == bad else ["T"]) for c in cids}))
+                    ops.append({"op": "new", "cls": last, "k": 0, "args": {}, "truth": {c: ["T"] for c in cids}})
+            yield {"program": {"funcs": [], "classes": classes}, "ops": ops, "codes": {}, "masks": [0], "fixed_truth": {},
+                   "d19_shape": False, "matrix": ["inv-order", list(combo), layout]}
+
+
 def directed(ctx, only=None):
     D.run_one(ctx, dict(D19_CASE), judge, nontrivial=lambda *a: True)
     if only is None:
@@ -386,6 +422,11 @@ def directed(ctx, only=None):
             D.run_one(ctx, case, judge, nontrivial=lambda *a: True)
             n += 1
         ctx.count("constructor_matrix_programs", n)
+        n = 0
+        for case in invariant_order_matrix():
+            D.run_one(ctx, case, judge, nontrivial=lambda *a: True)
+            n += 1
+        ctx.count("invariant_order_matrix_programs", n)
 
 
 def replay(ctx, case):
